@@ -8,6 +8,8 @@ import JominiModel.Spec.JsonDoc
 import JominiModel.Proofs.JsonDoc
 import JominiModel.Proofs.JsonTape
 import JominiModel.Proofs.JsonUtf8
+import JominiModel.Proofs.JsonReach
+import JominiModel.Proofs.JsonKnown
 import JominiModel.Proofs.TextTapeJsonWf
 import JominiModel.Proofs.JsonEndToEnd
 /-
@@ -312,5 +314,82 @@ theorem C16_end_to_end : type_of% @Jomini.JsonEndToEnd.end_to_end := @Jomini.Jso
 
 theorem C16_end_to_end_layout_independent : type_of% @Jomini.JsonEndToEnd.end_to_end_layout_independent :=
   @Jomini.JsonEndToEnd.end_to_end_layout_independent
+
+/-! ### `json()` on every reader of the document (all options, both encodings)
+
+The check drives the object entry point, and the array / value builders on the FIRST field's value
+(`C16_content_value`, `C16_content_array`).  The builders are the same code at every position; the
+following theorems cover every position: `Doc.values d` lists every value node of the document
+with the index of its token — the places a `ValueReader` can stand on when the document is walked
+with `fields()`, `values()`, `read_object()`, `read_array()` (header views included). -/
+
+/-- `ValueReader::json()` (`JsonValueBuilder`) on ANY value of a well-formed document is `jsonOf` of
+that value, for every `DuplicateKeyMode × TypeNarrowing × pretty` and both encodings — in
+particular it neither panics nor hangs. -/
+theorem C16_content_every_value (o : Opts) (enc : Enc) (t : Tape) (d : Doc) (h : docAt t d = true)
+    (n : Node) (i : Nat) (hp : (n, i) ∈ d.values) :
+    serValue o enc t (fuelOf t + 1) i = .ok (jsonOf o enc n) :=
+  serValue_every t o enc d h n i hp
+
+/-- `ArrayReader::json()` (`JsonArrayBuilder`) on the reader of ANY array of the document. -/
+theorem C16_content_every_array (o : Opts) (enc : Enc) (t : Tape) (d : Doc) (h : docAt t d = true)
+    (m : Bool) (items : List Item) (i : Nat) (hp : (Node.arr m items, i) ∈ d.values) :
+    arrayJson (serValue o enc t (fuelOf t)) enc t o (i + 1) (i + 1 + itemsSize items) =
+      .ok (jsonOf o enc (.arr m items)) :=
+  arrayJson_every t o enc d h m items i hp
+
+/-- `ObjectReader::json()` (`JsonObjectBuilder`) on the reader of ANY object of the document. -/
+theorem C16_content_every_object (o : Opts) (enc : Enc) (t : Tape) (d : Doc) (h : docAt t d = true)
+    (flag m : Bool) (fields : List Field) (rest : List Item) (i : Nat)
+    (hp : (Node.obj flag m fields rest, i) ∈ d.values) :
+    objectJson (serValue o enc t (fuelOf t)) enc t o (i + 1)
+        (i + 1 + fieldsSize fields + (if m then 1 else 0) + itemsSize rest) =
+      .ok (jsonOf o enc (.obj flag m fields rest)) :=
+  objectJson_every t o enc d h flag m fields rest i hp
+
+/-- and what is rendered there is a JSON text in well-formed UTF-8 -/
+theorem C16_valid_output_every_value (ff : Nat → Bytes) (hff : ∀ b, isNumber (ff b) = true)
+    (o : Opts) (enc : Enc) (n : Node) :
+    JsonText (render ff o (jsonOf o enc n)) ∧ validUtf8 (render ff o (jsonOf o enc n)) = true := by
+  refine ⟨?_, (V_iff _).mpr (V_render ff hff o _ (jsonOf_ok o enc n))⟩
+  unfold render
+  split
+  · exact jsonText_pretty ff hff _
+  · exact jsonText_compact ff hff _
+
+/-- hypotheses satisfiable: `c = rgb { 1 } c = { a > 2 }` has five value nodes (the header, its
+body, the scalar `1`, the object, the scalar `2`), at token indices 1, 2, 3, 6, 9 -/
+example : (Doc.values ⟨[.mk (.unquoted [99]) none (.header [114, 103, 98] (.arr false [.val (.scalar false [49])])),
+      .mk (.unquoted [99]) none (.obj false false [.mk (.unquoted [97]) (some .gt) (.scalar false [50])] [])],
+    false, []⟩).map (·.2) = [1, 2, 3, 6, 9] := by rfl
+
+/-! ### the three recorded findings, on the models (negative theorems)
+
+`JsonKnown.jsonBytes o enc entry input` = text tape parser model → token translation → JSON model →
+rendering: the bytes `TextTape::from_slice(input)?.…json().with_options(o).to_vec()` gives.  Each
+theorem exhibits, on the witness of known_findings.txt / corpus/C16.txt, exactly the output of the
+real code, and its docstring names the clause of C16 it contradicts. -/
+
+open Jomini.JsonKnown in
+/-- known finding `group-keyed-by-raw-bytes`: Group mode groups by the RAW key bytes.  Contradicts
+"duplicate keys … grouped … with no entry lost" / "contains every key": the `[!scaled_skill]`
+branch is filed under the key `[scaled_skill]` (its negation is lost), and `"a "` / `a`, which are
+the same JSON key, are NOT grouped (Group mode still writes a duplicate key). -/
+theorem C16_known_group_keyed_by_raw_bytes : type_of% @known_group_keyed_by_raw_bytes :=
+  @known_group_keyed_by_raw_bytes
+
+open Jomini.JsonKnown in
+/-- known finding `plus-sign-narrowed-to-zero`: the scalar `+` becomes the number 0.  Contradicts
+"scalars narrowed to booleans and numbers exactly as the type-narrowing option says" / "carries
+every value" (`+` is not a number and cannot be recovered from `0`). -/
+theorem C16_known_plus_sign_narrowed_to_zero : type_of% @known_plus_sign_narrowed_to_zero :=
+  @known_plus_sign_narrowed_to_zero
+
+open Jomini.JsonKnown in
+/-- known finding `header-array-view-duplicates-body`: the array view of a header value, and a
+header token among the values of a mixed container, write the header's body twice.  Contradicts
+"carries the document's content" (an entry is invented: `[100,200,150]` resp. `[1]` appears twice). -/
+theorem C16_known_header_array_view_duplicates_body : type_of% @known_header_array_view_duplicates_body :=
+  @known_header_array_view_duplicates_body
 
 end Jomini.Props.C16
